@@ -45,16 +45,26 @@ impl Rng {
 pub struct Log {
     w: BufWriter<Box<dyn Write>>,
     pub lines: usize,
+    /// sidecar `<path>.cur`: the op about to be executed, so that a crash or hang of the code under
+    /// test (abort, OOM kill, endless loop) can be attributed by the driver that launched us
+    cur: Option<std::fs::File>,
 }
-fn check_value(v: &Value) {
+/// TLC-safety: no null, no floats; integers that do not fit 31 bits (e.g. an `end()` sentinel
+/// leaking out of a corrupted structure) are clamped to WIDE so the event is still written and
+/// is then rejected by the spec instead of crashing the recorder.
+pub const WIDE: i64 = (1 << 31) - 1;
+fn check_value(v: &mut Value) {
     match v {
         Value::Null => panic!("null in trace"),
         Value::Number(n) => {
-            let i = n.as_i64().expect("non-integer in trace");
-            assert!(i.abs() < (1i64 << 31), "integer too wide for TLC: {}", i);
+            let ok = n.as_i64().map(|i| i.abs() < WIDE).unwrap_or(false);
+            if !ok {
+                assert!(n.is_i64() || n.is_u64(), "float in trace");
+                *v = Value::from(WIDE);
+            }
         }
-        Value::Array(a) => a.iter().for_each(check_value),
-        Value::Object(o) => o.values().for_each(check_value),
+        Value::Array(a) => a.iter_mut().for_each(check_value),
+        Value::Object(o) => o.values_mut().for_each(check_value),
         _ => {}
     }
 }
@@ -65,13 +75,26 @@ impl Log {
         } else {
             Box::new(std::fs::File::create(path).expect("create trace file"))
         };
-        Log { w: BufWriter::with_capacity(1 << 20, f), lines: 0 }
+        let cur = if path == "-" { None } else { std::fs::File::create(format!("{}.cur", path)).ok() };
+        Log { w: BufWriter::with_capacity(1 << 20, f), lines: 0, cur }
     }
-    pub fn ev(&mut self, v: Value) {
-        check_value(&v);
+    pub fn ev(&mut self, mut v: Value) {
+        check_value(&mut v);
         serde_json::to_writer(&mut self.w, &v).unwrap();
         self.w.write_all(b"\n").unwrap();
         self.lines += 1;
+    }
+    /// Announce the call that is about to run; everything logged so far is made durable first.
+    pub fn about_to(&mut self, op: &Value) {
+        use std::io::{Seek, SeekFrom};
+        if self.cur.is_some() {
+            self.w.flush().unwrap();
+            let f = self.cur.as_mut().unwrap();
+            let txt = serde_json::to_vec(op).unwrap();
+            let _ = f.seek(SeekFrom::Start(0));
+            let _ = f.set_len(0);
+            let _ = f.write_all(&txt);
+        }
     }
     pub fn flush(&mut self) {
         self.w.flush().unwrap();
@@ -83,13 +106,24 @@ impl Drop for Log {
     }
 }
 
+static GUARD_DEPTH: std::sync::atomic::AtomicUsize = std::sync::atomic::AtomicUsize::new(0);
+
+/// Panics inside `guard` are data and stay silent; any other panic (a harness bug) is printed.
 pub fn silence_panics() {
-    std::panic::set_hook(Box::new(|_| {}));
+    let default = std::panic::take_hook();
+    std::panic::set_hook(Box::new(move |info| {
+        if GUARD_DEPTH.load(std::sync::atomic::Ordering::SeqCst) == 0 {
+            default(info);
+        }
+    }));
 }
 
 /// Run `f`, turning a panic into Err(()). The panic is *data* for the spec.
 pub fn guard<T>(f: impl FnOnce() -> T) -> Result<T, ()> {
-    catch_unwind(AssertUnwindSafe(f)).map_err(|_| ())
+    GUARD_DEPTH.fetch_add(1, std::sync::atomic::Ordering::SeqCst);
+    let r = catch_unwind(AssertUnwindSafe(f)).map_err(|_| ());
+    GUARD_DEPTH.fetch_sub(1, std::sync::atomic::Ordering::SeqCst);
+    r
 }
 
 // Results are tagged tuples and the tag fixes the payload type, so that TLC
